@@ -248,7 +248,11 @@ def grad_fn(fam, reg, api):
 
 
 @functools.lru_cache(maxsize=None)
-def evaluator(fam, reg):
+def evaluator(fam, reg, backend=None):
+  if backend:
+    # built under the documented 'pmap' / 'debug' for_each_client backend
+    with fedjax.for_each_client_backend(backend):
+      return fedjax.AverageLossEvaluator(LOSS[fam], regularizer(fam, reg))
   return fedjax.AverageLossEvaluator(LOSS[fam], regularizer(fam, reg))
 
 
@@ -665,11 +669,16 @@ def run_cluster_losses(case):
       rv, _ = ref_reg(fam, reg, case['params'][kj])
       want[ci, kj] = (losses.mean() if losses.size else 0.0) + rv
       scale[ci] = max(scale[ci], 1.0 + amax(losses) + abs(rv))
-  ev = evaluator(fam, reg)
   base = None
   extra = []
   for gi, geom in enumerate(geoms_of(case)):
     hp = fedjax.PaddedBatchHParams(batch_size=geom['b'], num_batch_size_buckets=geom['k'])
+    # on the pmap backend (which stacks the j-th batches of a block of clients
+    # and yields clients ordered by their number of batches) for the
+    # geometries it can stack: one padded size for every batch
+    ev = evaluator(fam, reg, case.get('backend') if geom['k'] == 1 else None)
+    if case.get('backend') and geom['k'] == 1 and gi > 0:
+      extra.append('on_' + case['backend'] + '_backend')
     clients = [(client_id(ci), client_dataset(fam, case['clients'][ci]),
                 key(case, ci)) for ci in range(nc)]
     cluster_params = [params_tree(fam, p) for p in case['params']]
@@ -718,9 +727,14 @@ def run_mime_grads(case):
   want_sum = [per_ex[ci].sum(axis=0) + sizes[ci] * reg_grad for ci in range(nc)]
   sum_scale = [1.0 + float(np.abs(per_ex[ci]).sum(axis=0).max()) + sizes[ci] * amax(reg_grad)
                for ci in range(nc)]
-  total = sum(sizes)
+  # the cohort as occurrences: with case['repeat'] one client is listed a second
+  # time (a cohort sampled with replacement; packaged algorithm sites only)
+  occ = list(range(nc))
+  if case.get('repeat') is not None and site != 'mime.create_grads_for_each_client' and nc:
+    occ.insert(case['repeat'] % (nc + 1), case['repeat'] % nc)
+  total = sum(sizes[ci] for ci in occ)
   if total:
-    want_server = sum(p.sum(axis=0) for p in per_ex) / total + reg_grad
+    want_server = sum(per_ex[ci].sum(axis=0) for ci in occ) / total + reg_grad
   else:
     want_server = np.zeros(NPARAMS[fam])
   server_scale = 1.0 + max(amax(p) for p in per_ex) + amax(reg_grad)
@@ -752,9 +766,9 @@ def run_mime_grads(case):
       alg = mime_algorithm(site, fam, reg, geom['b'], geom['k'])
       state = alg.init(params_tree(fam, ints))
       clients = [(client_id(ci), client_dataset(fam, case['clients'][ci]),
-                  key(case, ci)) for ci in range(nc)]
+                  key(case, ci)) for ci in occ]
       new_state, _ = alg.apply(state, clients)
-      what = f'{site}[{fam},{reg}] sizes {sizes} {gname(gi, geom)}'
+      what = f'{site}[{fam},{reg}] sizes {[sizes[ci] for ci in occ]} {gname(gi, geom)}'
       trace = new_state.opt_state[0].trace
       g = from_tree(fam, trace, what)
       clause = ('no_examples:server_grads_not_zero' if total == 0
@@ -1018,7 +1032,8 @@ def cluster_case(draw, tier):
           'params': [draw(params_strategy(fam)) for _ in range(draw(st.integers(2, 3)))],
           'clients': clients, 'geoms': draw(geoms_strategy(tier, sizes, ['padded'])),
           'seed': draw(st.integers(0, 2**31 - 8)),
-          'prep': draw(st.integers(0, 3)) == 0}
+          'prep': draw(st.integers(0, 3)) == 0,
+          'backend': draw(st.sampled_from([None, None, 'pmap', 'debug']))}
 
 
 @st.composite
@@ -1035,7 +1050,8 @@ def mime_case(draw, tier):
           'params': draw(params_strategy(fam)), 'clients': clients,
           'geoms': geoms if direct else geoms[:2],
           'seed': draw(st.integers(0, 2**31 - 8)),
-          'prep': draw(st.integers(0, 3)) == 0}
+          'prep': draw(st.integers(0, 3)) == 0,
+          'repeat': None if direct else draw(st.sampled_from([None, None, 0, 1, 2]))}
 
 
 @st.composite
